@@ -133,5 +133,36 @@ def setFromMessage (dst src : Packet) : Packet :=
   let d2 := (options src).foldl (fun d o => addOption d o.1 o.2) d1
   setPayload d2 (payload src)
 
+/-! ### `MutableWritableMessage` (0.2 and 0.3; 0.2 additionally has `payload_mut`) -/
+
+/-- `available_space()` = `usize::MAX` (64-bit target) -/
+def availableSpace (_p : Packet) : Nat := 2 ^ 64 - 1
+
+/-- `truncate(length)`: `Vec::truncate` on the payload -/
+def truncate (p : Packet) (len : Nat) : Packet := { p with payload := p.payload.take len }
+
+/-- `Vec::resize(len, 0)` -/
+def resize0 (b : Bytes) (len : Nat) : Bytes := b.take len ++ List.replicate (len - b.length) 0
+
+/-- `payload_mut_with_len(len)`: resize with zeros, then the caller writes through the returned
+slice; `w` is the caller's (length-preserving) write -/
+def payloadMutWithLen (p : Packet) (len : Nat) (w : Bytes → Bytes) : Packet :=
+  { p with payload := w (resize0 p.payload len) }
+
+/-- `payload_mut()` (0.2): the caller writes through the slice -/
+def payloadMut (p : Packet) (w : Bytes → Bytes) : Packet := { p with payload := w p.payload }
+
+/-- the option number a `mutate_options` callback is handed: `number.into()` (u16 → CoapOption) -/
+def cbNumber (n : Nat) : Nat := CoapOption.toU16 (CoapOption.ofU16 n)
+
+/-- `mutate_options(callback)`: the callback is applied to every value in place, map order
+then list order; `f num value` is the caller's (length-preserving) write -/
+def mutateOptions (p : Packet) (f : Nat → Bytes → Bytes) : Packet :=
+  { p with options := p.options.map (fun kv => (kv.1, kv.2.map (f (cbNumber kv.1)))) }
+
+/-- the sequence of (number, value) pairs the callback is invoked with -/
+def mutateCalls (p : Packet) : List (Nat × Bytes) :=
+  p.options.flatten.map (fun o => (cbNumber o.1, o.2))
+
 end MsgView
 end CoapLite
